@@ -273,6 +273,17 @@ def gen(rng, prop, tier):
                 else:
                     ops.append({'op': 'q_from_sparse', 'seed': rng.randint(0, 10 ** 6)})
     elif prop == 'C08':
+        if rng.random() < (0.01 if big else 0.004):
+            # more than 65535 spikes of one template, ids stored in 16 bits
+            cfg['ns'] = ns = 70000
+            cfg['skew'] = 0.95
+            cfg['dtypes']['ids'] = 'uint16'
+            cfg['unused_templates'] = []
+            p.update({'features': False, 'tfeatures': False, 'raw': False, 'attrs': False,
+                      'reordered': False})
+            cfg['raw'] = None
+            cfg['curation'] = [{'k': 'merge', 'a': 0, 'b': 1, 'frac': 0.5, 'seed': 1, 'gap': 0}]
+            p['sclusters'] = True
         if rng.random() < 0.15:
             # the assignments live under their ALF name only
             cfg['names']['sclusters'] = 'alf'
@@ -310,6 +321,7 @@ def gen(rng, prop, tier):
                 # a row table is there, and it lists every spike
                 p['feature_rows'] = True
                 cfg['feat_rows_complete'] = True
+                cfg['feat_rows_perm'] = False    # (C09's domain has no permuted row tables)
         if rng.random() < 0.5:
             cfg['curation'] = world.gen_curation_ops(rng, rng.randint(1, 4))
         ops = [{'op': 'load'}]
@@ -335,6 +347,16 @@ def gen(rng, prop, tier):
         cfg['raw']['format'] = 'flat'
         cfg['knobs']['chunk'] = rng.choice([3, 5, 11, 50, 200, 100000])
         cfg['ns'] = ns = max(ns, 30)
+        if rng.random() < (0.01 if big else 0.004):
+            # more spike ids than 16 bits hold, template ids stored in 16 bits
+            cfg['ns'] = ns = 66000
+            cfg['dtypes']['ids'] = 'uint16'
+            cfg['ties'] = True
+            cfg['nc'] = min(cfg['nc'], 4)
+            cfg['raw']['extra_channels'] = 0
+            cfg['raw']['n_files'] = 1
+            cfg['knobs']['chunk'] = 100000
+            p.update({'features': False, 'tfeatures': False, 'attrs': False, 'reordered': False})
         if rng.random() < 0.5:
             # curated: the budget is per TEMPLATE whatever the cluster assignment says
             cfg['curation'] = world.gen_curation_ops(rng, rng.randint(1, 3))
